@@ -74,7 +74,7 @@ Fixpoint zrange (lo : Z) (count : nat) : list Z :=
   match count with O => [] | S c => lo :: zrange (lo + 1) c end.
 
 Definition admitted_counts (s : site) (r : reg) : list Z :=
-  let hi := if r_max r <? 0 then Z.max (r_min r) 0 + horizon s else r_max r in
+  let hi := if r_max r <? 0 then Z.max (r_min r) 0 + Z.max (r_shift r) 0 + horizon s else r_max r in
   zrange (r_min r) (Z.to_nat (hi - r_min r + 1)).
 
 Definition site_ok_for (s : site) (r : reg) : bool :=
